@@ -171,6 +171,20 @@ func (r *Run) fieldFuncKey(v ssa.Value) string {
 	if !ok || u.Op != token.MUL {
 		return ""
 	}
+	if a, ok := u.X.(*ssa.Alloc); ok {
+		// a local that only ever holds the value of one func-typed field
+		key := ""
+		for _, ref := range *a.Referrers() {
+			if s, ok := ref.(*ssa.Store); ok && s.Addr == a {
+				k := r.fieldFuncKey(s.Val)
+				if k == "" || (key != "" && k != key) {
+					return ""
+				}
+				key = k
+			}
+		}
+		return key
+	}
 	fa, ok := u.X.(*ssa.FieldAddr)
 	if !ok {
 		return ""
@@ -241,7 +255,12 @@ func (r *Run) execCall(fr *Frame, st *State, reach Term, cc *ssa.CallCommon, ins
 		return r.callStatic(fr, st, reach, callee, binds, args, instr, cc)
 	}
 	// dynamic: func-typed field with a declared contract?
-	if key := r.fieldFuncKey(cc.Value); key != "" {
+	key := r.fieldFuncKey(cc.Value)
+	if key == "" && fnVal.Kind == VTerm && strings.HasPrefix(fnVal.Src, "F.") {
+		// the function value was copied from a field into a local first
+		key = "field:" + strings.TrimPrefix(fnVal.Src, "F.")
+	}
+	if key != "" {
 		if sp := r.specs.Funcs[key]; sp != nil {
 			var names []string
 			for i := 0; i < sig.Params().Len(); i++ {
@@ -370,6 +389,11 @@ func (r *Run) inlineCall(fr *Frame, st *State, reach Term, callee *ssa.Function,
 		sts = append(sts, rp.st)
 	}
 	merged := r.mergeStates(conds, sts)
+	nreach0 := Or(conds...)
+	if sp := r.specFor(callee); sp != nil && (len(sp.Ghost) > 0 || len(sp.Asserts) > 0) {
+		// ghost code anchored at the inlined function's return
+		r.ghostAt(sub, merged, nreach0, "return", nil)
+	}
 	// drop the callee's cells
 	for k := range merged.cells {
 		if k.frame == sub.id {
@@ -479,12 +503,18 @@ func (r *Run) callWithSpec(fr *Frame, st *State, reach Term, sp *FuncSpec, sig *
 	}
 	// 1. precondition
 	for i, c := range sp.Requires {
-		g := env.evalBool(c.E)
+		parts := env.evalBoolParts(c.E)
 		if env.err != nil {
 			r.fatal = fmt.Sprintf("%s requires %d (at call in %s): %v", sp.Key, i+1, funcKey(fr.fn), env.err)
 			return r.freshTypedResults(sig, st), reach
 		}
-		r.oblige(fr, "pre", "", fmt.Sprintf("%spre@%s#%d.%s", r.inlinePrefix(fr), short, ord, clauseName(c, i)), reach, g, r.callProps(fr, c), pos, c.Text)
+		for pi, g := range parts {
+			name := fmt.Sprintf("%spre@%s#%d.%s", r.inlinePrefix(fr), short, ord, clauseName(c, i))
+			if len(parts) > 1 {
+				name += fmt.Sprintf(".%d", pi+1)
+			}
+			r.oblige(fr, "pre", "", name, reach, g, r.callProps(fr, c), pos, c.Text)
+		}
 	}
 	// 2. frame: items that do not mention results designate pre-state objects
 	pre := st.clone()
@@ -548,6 +578,21 @@ func (r *Run) callWithSpec(fr *Frame, st *State, reach Term, sp *FuncSpec, sig *
 		}
 		r.ctx.Assert(Implies(reach, g))
 	}
+	if instr != nil {
+		rv := map[string]Val{}
+		switch len(rn) {
+		case 0:
+		case 1:
+			rv[rn[0]] = res
+			rv["result"] = res
+		default:
+			for i, n := range rn {
+				rv[n] = res.Tup[i]
+				rv[fmt.Sprintf("result%d", i)] = res.Tup[i]
+			}
+		}
+		r.ghostAt(fr, st, reach, fmt.Sprintf("call:%s#%d", short, ord), instr, rv)
+	}
 	return res, reach
 }
 
@@ -584,15 +629,67 @@ func (r *Run) assignComps(sp *FuncSpec, a Expr) ([]string, bool) {
 				if s, ok := x.Args[0].(*EStr); ok {
 					return []string{s.V}, false
 				}
+			case "allelems", "allboxes":
+				if s, ok := x.Args[0].(*EStr); ok {
+					if t := r.resolveType(r.specEnvPkg(sp), s.V); t != nil {
+						if id.Name == "allelems" {
+							c, _ := r.elemComp(t)
+							return []string{c}, false
+						}
+						c, _ := r.boxComp(t)
+						return []string{c}, false
+					}
+				}
+				return nil, true
 			}
 		}
 	case *ESel:
-		// by field name: every registered component ending in .<field>; plus ghost fields
+		// Type.field: exactly that component
+		if id, ok := x.X.(*EIdent); ok {
+			if p := r.specEnvPkg(sp); p != nil {
+				if tn, ok := p.Scope().Lookup(id.Name).(*types.TypeName); ok {
+					c := "F." + structName(tn.Type()) + "." + x.Sel
+					if stt, ok := tn.Type().Underlying().(*types.Struct); ok {
+						for i := 0; i < stt.NumFields(); i++ {
+							if stt.Field(i).Name() == x.Sel {
+								r.fieldComp(stt, structName(tn.Type()), i)
+							}
+						}
+					}
+					if gs, ok := r.specs.Ghosts[id.Name+"."+x.Sel]; ok {
+						r.regComp(c, arraySort(SInt, gs))
+					}
+					return []string{c}, false
+				}
+			}
+		}
+		// x.field: every component ending in .<field> (registered, or of a struct type of the spec's package)
 		var out []string
 		suffix := "." + x.Sel
 		for c := range r.compSorts {
 			if strings.HasPrefix(c, "F.") && strings.HasSuffix(c, suffix) {
 				out = append(out, c)
+			}
+		}
+		if p := r.specEnvPkg(sp); p != nil {
+			for _, name := range p.Scope().Names() {
+				tn, ok := p.Scope().Lookup(name).(*types.TypeName)
+				if !ok {
+					continue
+				}
+				if stt, ok := tn.Type().Underlying().(*types.Struct); ok {
+					for i := 0; i < stt.NumFields(); i++ {
+						if stt.Field(i).Name() == x.Sel {
+							c, _ := r.fieldComp(stt, structName(tn.Type()), i)
+							out = append(out, c)
+						}
+					}
+				}
+				if gs, ok := r.specs.Ghosts[name+"."+x.Sel]; ok {
+					c := "F." + structName(tn.Type()) + "." + x.Sel
+					r.regComp(c, arraySort(SInt, gs))
+					out = append(out, c)
+				}
 			}
 		}
 		// make sure the component exists even if not touched yet: resolve through the type when possible
@@ -692,6 +789,20 @@ func (r *Run) resolveTarget(env *Env, a Expr, sp *FuncSpec) func(st *State) {
 					}
 					r.heapSet(st, comp, r.ctx.Define("h."+comp, Store(m, slBase(t), row)))
 				}
+			case "allelems", "allboxes":
+				if s, ok := x.Args[0].(*EStr); ok {
+					if t := r.resolveType(r.specEnvPkg(sp), s.V); t != nil {
+						var comp string
+						if id.Name == "allelems" {
+							comp, _ = r.elemComp(t)
+						} else {
+							comp, _ = r.boxComp(t)
+						}
+						return func(st *State) { r.heapSet(st, comp, r.ctx.Fresh("hv."+comp, r.compSort(comp))) }
+					}
+				}
+				env.fail("%s: unknown type", id.Name)
+				return nop
 			case "comp":
 				if s, ok := x.Args[0].(*EStr); ok {
 					return func(st *State) {
@@ -975,6 +1086,39 @@ func (r *Run) ghostAt(fr *Frame, st *State, reach Term, anchor string, instr ssa
 	sp := r.specFor(fr.fn)
 	if sp == nil {
 		return
+	}
+	for ai, ac := range sp.Asserts {
+		if ac.Anchor != anchor {
+			continue
+		}
+		env := r.baseEnv(fr, st)
+		if instr != nil {
+			env.pos = instr.Pos()
+		}
+		for _, m := range extra {
+			for k, v := range m {
+				env.vars[k] = v
+			}
+		}
+		g := env.evalBool(ac.C.E)
+		if env.err != nil {
+			r.fatal = fmt.Sprintf("%s assert at %s: %v", funcKey(fr.fn), anchor, env.err)
+			return
+		}
+		if ac.Assume {
+			r.ctx.Assert(Implies(reach, g))
+			r.trusted["assume at "+funcKey(fr.fn)+" "+anchor+": "+ac.C.Text] = true
+			continue
+		}
+		props := ac.C.Props
+		if len(props) == 0 {
+			props = r.funcProps(fr)
+		}
+		pos := token.NoPos
+		if instr != nil {
+			pos = instr.Pos()
+		}
+		r.oblige(fr, "assert", "", fmt.Sprintf("%sassert@%s.%s", r.inlinePrefix(fr), anchor, clauseName(ac.C, ai)), reach, g, props, pos, ac.C.Text)
 	}
 	for _, gb := range sp.Ghost {
 		if gb.Anchor != anchor {
